@@ -1020,3 +1020,58 @@ class Interp:
 
 def _o(g: Geo) -> str:
     return ("-" + ",".join(f"{l}@{m}" for l, m in sorted(g.offs, key=str))) if g.offs else ""
+
+
+def selftest_geom_units():
+    """Micro-program: scale, stride and crop origin cancel symbolically; a forgotten factor does not."""
+    import os
+    import pathlib
+    import shutil
+    import tempfile
+    import textwrap
+
+    src = textwrap.dedent(
+        """
+        def decode(peaks, box, stride, scale, eff):
+            p = peaks * stride
+            if scale != 1.0:
+                p = p / scale
+            p = p / eff
+            b = box / scale / eff
+            return p + b[0][0]
+
+        def forgot(peaks, box, stride, scale, eff):
+            p = peaks * stride / eff
+            b = box / scale / eff
+            return p + b[0][0]
+
+        def branches(pts, flag, k):
+            if flag:
+                pts = pts * k
+            else:
+                pts = pts * k
+            out = []
+            for i in range(3):
+                out.append(pts)
+            return out
+        """
+    )
+    d = tempfile.mkdtemp()
+    try:
+        os.makedirs(os.path.join(d, "sleap_nn"))
+        pathlib.Path(d, "sleap_nn", "m.py").write_text(src)
+        prog = Program(d)
+        I = Interp(prog)
+        st, sc, ef = Mono.sym("stride"), Mono.sym("scale"), Mono.sym("eff")
+        m = sc * ef
+        peaks = Geo("PTS", m / st, frozenset({("b", m / st)}))
+        box = Geo("BOX", m, frozenset(), "b")
+        r = I.call_function(prog.func("sleap_nn.m:decode"), [peaks, box, Num(st), Num(sc), Num(ef)], {})
+        assert isinstance(r, Geo) and r.mono.is_one() and not r.offs, r
+        r2 = I.call_function(prog.func("sleap_nn.m:forgot"), [peaks, box, Num(st), Num(sc), Num(ef)], {})
+        assert isinstance(r2, Mismatch), r2
+        r3 = I.call_function(prog.func("sleap_nn.m:branches"), [Geo("PTS"), Other("flag"), Num(sc)], {})
+        e = I.elem_of(r3)
+        assert isinstance(e, Geo) and e.mono == sc, e
+    finally:
+        shutil.rmtree(d)
